@@ -1306,6 +1306,16 @@ class Repository:
             finally:
                 await chunk_producer
 
+        # Files that no chunk has touched (only possible if all files are empty)
+        for _, file in state.files:
+            if file.path not in snapshot_files:
+                snapshot_files[file.path] = {
+                    'path': file.path,
+                    'chunks': [],
+                    'digest': file.digest,
+                    'metadata': file.metadata,
+                }
+
         now = datetime.utcnow()
         snapshot_data = {
             'utc_timestamp': str(now),
@@ -1533,6 +1543,13 @@ class Repository:
                         )
                     )
                     chunk_position += chunk_size
+
+                if not digests:
+                    # No chunk will ever complete this (empty) file, create it now
+                    self._write_file_part(restore_to, b'', 0)
+                    os.truncate(restore_to, 0)
+                    self.restore_metadata(restore_to, file_data['metadata'])
+                    continue
 
                 files_metadata[file_path] = (
                     restore_to,
